@@ -1672,7 +1672,29 @@ func ruleClientLoopShape(p *Prog, r *Out) {
 		return true
 	})
 	r.check(okNil && okErr, "dispatch resolves the request", p.pos(dp.Pos()), "err == nil: END_STREAM -> finish(r, id, nil); else finish(r, id, err)", "dispatch no longer resolves the waiting request with nil when its response ended and with the error when reading the frame failed: the caller waits until its timeout, or is told of success for a failed response")
-	if endIf != nil {
+	if endIf != nil && squash(p.text(endIf.Cond)) == "c.endsStream(fr)" {
+		// the decision moved into endsStream when END_STREAM on HEADERS came
+		// to mean 'with the block': that function is pinned by client-block-state
+		var okEnds bool
+		if fd := p.decl("(*Conn).endsStream"); fd != nil {
+			okEnds = true
+			// END_STREAM must not be consulted for any frame kind but DATA and HEADERS
+			ast.Inspect(fd.Body, func(n ast.Node) bool {
+				if cc, ok := n.(*ast.CaseClause); ok {
+					for _, e := range cc.List {
+						if t := p.text(e); t != "FrameData" && t != "FrameHeaders" && t != "FrameContinuation" {
+							okEnds = false
+						}
+					}
+					if cc.List == nil {
+						okEnds = false
+					}
+				}
+				return true
+			})
+		}
+		r.check(okEnds, "response ends on END_STREAM of DATA or HEADERS", p.pos(dp.Pos()), "endsStream(fr): cases for DATA and for HEADERS/CONTINUATION only", "the end-of-stream test looks at frame kinds for which the END_STREAM bit is undefined")
+	} else if endIf != nil {
 		cd := fdeCheck{p, r, p.pos(dp.Pos())}
 		cd.expr("response ends on END_STREAM of DATA or HEADERS", endIf.Cond, fdeDomain{[]string{"fr.Type()", "fr.Flags().Has(FlagEndStream)"}, [][]int64{seq(0, 9), {0, 1}}}, nil, func(e fdeEnv) int64 {
 			t := e["fr.Type()"]
